@@ -370,3 +370,113 @@ def insert_line(M, pos, line, is_row):
     if is_row:
         return M[:pos] + [line] + M[pos:]
     return [r[:pos] + [line[i]] + r[pos:] for i, r in enumerate(M)]
+
+
+# ---------------------------------------------------------------------------------------------------------------
+# binary 3-sums of a graphic and a cographic matroid along a triangle / triad: regular, 3-connected for suitable graphs,
+# in general neither graphic nor cographic, so the decomposition has to run the nested-minor sequence and the
+# 3-separation search (construction: fundamental-cycle matrices M1 = [A a a; c 0 1], M2 = [1 0 b; d d B],
+# result [A a b^T; d c^T B])
+
+def _fund_matrix(n, edges, tree):
+    adj = {v: [] for v in range(n)}
+    for i in tree:
+        u, v = edges[i]
+        adj[u].append((v, i))
+        adj[v].append((u, i))
+
+    def path(s, t):
+        stack = [(s, -1, [])]
+        while stack:
+            x, p, pe = stack.pop()
+            if x == t:
+                return pe
+            for (y, i) in adj[x]:
+                if y != p:
+                    stack.append((y, x, pe + [i]))
+        raise ValueError("no path")
+    nontree = [i for i in range(len(edges)) if i not in tree]
+    rowidx = {e: k for k, e in enumerate(tree)}
+    M = [[0] * len(nontree) for _ in tree]
+    for c, i in enumerate(nontree):
+        u, v = edges[i]
+        for e in path(u, v):
+            M[rowidx[e]][c] = 1
+    return M, nontree
+
+
+def _grow_tree(rng, n, edges, allowed, seen, tree):
+    grow = True
+    while grow:
+        grow = False
+        for i in rng.shuffle(list(allowed)):
+            u, v = edges[i]
+            if (u in seen) != (v in seen):
+                seen.update((u, v))
+                tree.append(i)
+                grow = True
+                break
+    return tree, seen
+
+
+def threesum_graphic_cographic(rng, n1=None, g2=None, drop=None, perm=True):
+    """returns a binary matrix, or None if the random choices do not give the required shape"""
+    n1 = n1 or (5 + rng.below(2))
+    E1 = [(i, j) for i in range(n1) for j in range(i + 1, n1)]
+    cand = rng.shuffle([e for e in E1 if not (e[0] < 3 and e[1] < 3)])
+    for e in cand[:(rng.below(3) if drop is None else drop)]:
+        E1.remove(e)
+    g2 = g2 or rng.choice(["k33", "m3", "m4", "petersen"])
+    if g2 == "k33":
+        n2, E2 = 6, [(i, j) for i in range(3) for j in range(3, 6)]
+    elif g2 == "petersen":
+        n2 = 10
+        E2 = [(i, (i + 1) % 5) for i in range(5)] + [(i, i + 5) for i in range(5)] + [(5 + i, 5 + (i + 2) % 5) for i in range(5)]
+    else:
+        k = int(g2[1:])
+        n2 = 2 * k
+        E2 = [(i, (i + 1) % n2) for i in range(n2)] + [(i, i + k) for i in range(k)]
+    try:
+        u, v, w = rng.shuffle([0, 1, 2])
+        ei = {frozenset(e): i for i, e in enumerate(E1)}
+        r, x, y = ei[frozenset((u, v))], ei[frozenset((v, w))], ei[frozenset((u, w))]
+        allowed = [i for i, e in enumerate(E1) if u not in e and i != x]
+        tree, seen = _grow_tree(rng, n1, E1, allowed, {v}, [])
+        if len(seen) != n1 - 1:
+            return None
+        tree = tree + [r]
+        M, nontree = _fund_matrix(n1, E1, tree)
+        cx, cy = nontree.index(x), nontree.index(y)
+        order = [c for c in range(len(nontree)) if c not in (cx, cy)] + [cx, cy]
+        M = [[row[c] for c in order] for row in M]
+        if not (M[-1][-2] == 0 and M[-1][-1] == 1 and all(M[i][-2] == M[i][-1] for i in range(len(M) - 1))):
+            return None
+        A, a, c = [row[:-2] for row in M[:-1]], [row[-1] for row in M[:-1]], M[-1][:-2]
+        z = rng.below(n2)
+        inc = rng.shuffle([i for i, e in enumerate(E2) if z in e])
+        if len(inc) != 3:
+            return None
+        xp, yp, rp = inc
+        seen = {z}
+        for i in (xp, yp):
+            seen.update(E2[i])
+        tree, seen = _grow_tree(rng, n2, E2, [i for i, e in enumerate(E2) if z not in e], seen, [xp, yp])
+        if len(seen) != n2 or len(tree) != n2 - 1:
+            return None
+        N, nontree = _fund_matrix(n2, E2, tree)
+        cr = nontree.index(rp)
+        order = [cr] + [c for c in range(len(nontree)) if c != cr]
+        N = [[row[c] for c in order] for row in N]
+        M2 = [[N[i][j] for i in range(len(N))] for j in range(len(N[0]))]
+        if M2[0][0] == 0:
+            for row in M2:
+                row[0], row[1] = row[1], row[0]
+        if not (M2[0][0] == 1 and M2[0][1] == 0 and all(M2[i][0] == M2[i][1] for i in range(1, len(M2)))):
+            return None
+        b, d, B = M2[0][2:], [row[0] for row in M2[1:]], [row[2:] for row in M2[1:]]
+    except (ValueError, KeyError):
+        return None
+    R = [ra + [a[i] & bj for bj in b] for i, ra in enumerate(A)] + [[d[i] & cj for cj in c] + rb for i, rb in enumerate(B)]
+    if perm:
+        R = permute(rng, R)
+    return R
